@@ -58,13 +58,16 @@ def make_plan(rng):
             if sym:
                 k = rng.randint(1, 6)
                 shape = (k, k)
+            elif rng.random() < 0.06:
+                shape = rng.choice([(0,), (0, 3), (2, 0)])   # zero-element tensors are tensors too
             else:
                 shape = tuple(rng.randint(1, 5) for _ in range(rng.randint(1, 3)))
             dt = rng.choice(['float32', 'float64', 'bfloat16']) if mixed_dtype else base_dt
             items.append(dict(g=rng.randrange(len(groups)), shape=shape, sym=sym, avg=rng.random() < 0.5, dtype=dt))
         cycles.append(items)
     sizes = [packed_numel(it) * DTS[it['dtype']] for c in cycles for it in c]
-    cap = rng.choice([1, max(1, min(sizes) - 1), (min(sizes) + max(sizes)) // 2 + 1, sum(sizes) // 2 + 1, sum(sizes) + 1, 25 * 10 ** 6])
+    pos = [x for x in sizes if x > 0] or [1]
+    cap = rng.choice([1, max(1, min(pos) - 1), (min(pos) + max(pos)) // 2 + 1, sum(sizes) // 2 + 1, sum(sizes) + 1, 25 * 10 ** 6])
     # per-rank order of submissions: keeps the order within a group, interleaves groups differently
     orders = []
     for r in range(W):
@@ -201,6 +204,8 @@ def run_case(rng, res, idx, stress=False):
                     return res.violation(f'cycle {ci} tensor {ti} on rank {r}: future resolved to shape {tuple(t.shape)}, input shape {tuple(exp.shape)}', case, mechanism=mech_for('shape'))
                 if t.dtype != exp.dtype:
                     return res.violation(f'cycle {ci} tensor {ti} on rank {r}: future resolved to dtype {t.dtype}, input dtype {exp.dtype}', case, mechanism=mech_for('dtype'))
+                if exp.numel() == 0:
+                    continue   # a zero-element tensor: shape and dtype (checked above) are all there is
                 if plan['real'] or it['dtype'] == 'bfloat16':
                     ok = torch.allclose(t.double(), exp.double(), rtol=4 * float(torch.finfo(exp.dtype).eps) * len(mem), atol=1e-30 + 4 * float(torch.finfo(exp.dtype).eps) * float(exp.abs().max()))
                 else:
@@ -227,23 +232,10 @@ def run_case(rng, res, idx, stress=False):
                 gname = run.results[r]['names'][gi]
                 got = [e for e in evs if e['group'] == gname]
                 res.count('segmentation_checks')
-                i = 0
-                ok = True
-                for e in got:
-                    acc = cnt = byt = 0
-                    while i < len(subs) and acc < e['numel']:
-                        acc += subs[i][0]
-                        byt += subs[i][0] * subs[i][1]
-                        cnt += 1
-                        i += 1
-                    if acc != e['numel'] or (byt > plan['cap'] and cnt > 1):
-                        ok = False
-                        break
-                    if cnt > 1:
-                        multi_bucket = True
-                        res.count('multi_tensor_buckets')
-                if i != len(subs):
-                    ok = False
+                ok, nmulti = segment([e['numel'] for e in got], subs, plan['cap'])
+                if ok and nmulti:
+                    multi_bucket = True
+                    res.count('multi_tensor_buckets', nmulti)
                 if not ok:
                     return res.violation(f'rank {r}, cycle {ci}, group {mem}: all_reduce sizes {[e["numel"] for e in got]} are not an order-preserving segmentation of the submitted '
                                          f'packed sizes {[s[0] for s in subs]} under capacity {plan["cap"]} bytes (each tensor exactly once, no bucket over capacity unless single)', case,
@@ -255,6 +247,32 @@ def run_case(rng, res, idx, stress=False):
         capclass = 'tiny' if plan['cap'] <= 1 else ('huge' if plan['cap'] >= 10 ** 6 else 'mid')
         res.nontrivial.add(stable_hash(plan['groups'], capclass, [[(it['sym'], it['avg'], it['g']) for it in c] for c in plan['cycles']]))
     res.sample(dict(idx=idx, W=W, groups=plan['groups'], cap=plan['cap'], cycles=[len(c) for c in plan['cycles']], policy=policy))
+
+
+def segment(events, subs, cap):
+    """Is `events` (numel per all_reduce) a contiguous, order-preserving segmentation of `subs` [(numel, itemsize)] with at
+    least one tensor per all_reduce and no multi-tensor segment above the capacity? Zero-element tensors may sit in either
+    neighbouring segment, hence the small search. Returns (ok, number of multi-tensor segments of the found segmentation)."""
+    import functools
+
+    @functools.lru_cache(maxsize=None)
+    def rec(ei, si):
+        if ei == len(events):
+            return 0 if si == len(subs) else None
+        acc = byt = 0
+        for j in range(si, len(subs)):
+            acc += subs[j][0]
+            byt += subs[j][0] * subs[j][1]
+            if acc > events[ei]:
+                break
+            cnt = j - si + 1
+            if acc == events[ei] and not (byt > cap and cnt > 1):
+                r = rec(ei + 1, j + 1)
+                if r is not None:
+                    return r + (1 if cnt > 1 else 0)
+        return None
+    r = rec(0, 0)
+    return (r is not None), (r or 0)
 
 
 def plan(tier, seed):
